@@ -66,7 +66,7 @@ func siteKey(p *Prog, f *ssa.Function, ord map[string]int) string {
 	name := t.Name()
 	if t.Signature.Recv() != nil {
 		if nt := namedOf(t.Signature.Recv().Type()); nt != nil {
-			name = nt.Obj().Name() + "." + name
+			name = objName(nt.Obj()) + "." + name
 		}
 	}
 	if t.Pkg != nil {
@@ -165,7 +165,7 @@ func checkC09(c *Check) {
 		}
 		perTxn := allocatedOnlyInStart(p, ownerT)
 		if perTxn {
-			c.Hold("K2", ownerT.Obj().Name()+"."+objName(fv), fv.Pos(), true, "")
+			c.Hold("K2", objName(ownerT.Obj())+"."+objName(fv), fv.Pos(), true, "")
 			continue
 		}
 		// needs a reset in its Mail method
@@ -179,7 +179,7 @@ func checkC09(c *Check) {
 				reset = true
 			}
 		}
-		c.Hold("K2", ownerT.Obj().Name()+"."+objName(fv), fv.Pos(), reset, "objects of type "+ownerT.Obj().Name()+" are reused across transactions (connection pool) but the recipient list is never reset when a transaction starts: a reused connection reports the recipients of earlier messages")
+		c.Hold("K2", objName(ownerT.Obj())+"."+objName(fv), fv.Pos(), reset, "objects of type "+objName(ownerT.Obj())+" are reused across transactions (connection pool) but the recipient list is never reset when a transaction starts: a reused connection reports the recipients of earlier messages")
 	}
 
 	// ---- K3a: accept-once
@@ -838,7 +838,7 @@ func c09Translate(c *Check, pc *provCtx, sites []statusSite) {
 		}
 		isWrapLit := func(e ast.Expr) bool {
 			cl, ok := ast.Unparen(e).(*ast.CompositeLit)
-			if !ok || namedOf(info.TypeOf(cl)) == nil || namedOf(info.TypeOf(cl)).Obj().Name() != "statusCollector" {
+			if !ok || namedOf(info.TypeOf(cl)) == nil || objName(namedOf(info.TypeOf(cl)).Obj()) != "statusCollector" {
 				return false
 			}
 			okW, okT := false, false
